@@ -219,7 +219,8 @@ func TestVerifReplay_%(name)s(t *testing.T) {
 '''
 
 def pkgname_of(h):
-    f = os.path.join(VERIF, 'harness', h.files[0])
+    mine = [x for x in h.files if os.path.dirname(x) == h.pkg] or h.files
+    f = os.path.join(VERIF, 'harness', mine[0])
     for line in open(f):
         m = re.match(r'package\s+(\w+)', line)
         if m: return m.group(1)
